@@ -230,6 +230,11 @@ func (m *Manager) GetGroupTracker(group string) *GroupTracker {
 // The userTracker MUST have been created and the application SHOULD not be tracked yet for the user.
 func (m *Manager) ensureGroupTrackerForApp(queuePath, applicationID string, user security.UserGroup) {
 	userTracker := m.GetUserTracker(user.User)
+	if userTracker == nil {
+		// the tracker was removed between the caller's lookup and this one: the user's last allocation was released
+		// by another goroutine. Get (or create) it again instead of dereferencing nil.
+		userTracker = m.getUserTracker(user.User)
+	}
 	// sanity check: caller should not have called this function if the application is already tracked
 	if userTracker.hasGroupForApp(applicationID) {
 		return
